@@ -488,6 +488,16 @@ def run(repo, rep):
     # ---------------------------------------------------------------- B2
     problems = []
     n_decode = 0
+
+    def as_int(t):
+        """the bound as an integer: a literal, or an expression that folds to one (``S.size``, a named constant)"""
+        if t.isdigit():
+            return int(t)
+        try:
+            v = repo.try_fold(ast.parse(t, mode='eval').body, repo.module('dulprovider'), repo.cls('dulprovider', 'DULServiceProvider'))
+        except SyntaxError:
+            return None
+        return v if isinstance(v, int) and not isinstance(v, bool) else None
     for s, how in pm.paths('_process_incoming', inline_helpers=False):
         decs = [e for e in s.trail if e.kind == 'decode' and 'PDU_TYPES' in e.callee or (e.kind == 'decode' and e.args and BUF in e.args[0])]
         if not decs:
@@ -529,15 +539,6 @@ def run(repo, rep):
                 pass  # order irrelevant: the slice was taken from the old buffer value (terms are values)
         # guards on the path, at the time of the decode
         bounds = [b for b in (_len_buf_bound(c) for c in dec.conds) if b]
-        def as_int(t):
-            """the bound as an integer: a literal, or an expression that folds to one (``S.size``, a named constant)"""
-            if t.isdigit():
-                return int(t)
-            try:
-                v = repo.try_fold(ast.parse(t, mode='eval').body, repo.module('dulprovider'), repo.cls('dulprovider', 'DULServiceProvider'))
-            except SyntaxError:
-                return None
-            return v if isinstance(v, int) and not isinstance(v, bool) else None
         g1v = [as_int(t) + sl for (t, sl) in bounds if as_int(t) is not None]
         if not g1v:
             problems.append('no guard ensures the header is complete before the length field is read')
@@ -570,8 +571,9 @@ def run(repo, rep):
                 problems.append('line %d reads buffer bytes up to offset %d on a path that guarantees %s buffered byte(s): recv() may '
                                 'have returned only part of the header' % (ev.line, need, max(have) if have else
                                                                            ('at least 1' if '+' + BUF in ev.conds else 'no')))
-    if n_windows == 0:
-        raise AnalysisError('no fixed-window read of the receive buffer found: the length field is read in a form the rule does not know')
+    if n_windows == 0 and not problems:
+        rep.undecided('C03.B2', 'no fixed-window read of the receive buffer found: the length field is read in a form the window clause '
+                      'does not know')
     rep.check(not problems, 'C03.B2', 'dulprovider:DULServiceProvider._process_incoming:header-arithmetic',
               pm.method('_process_incoming').loc(),
               'guards, length slice [%d:%d], big-endian unpack, +%d and both slices agree on %d decode path(s)'
